@@ -36,7 +36,7 @@ def crash_known(rep: Report, stage: str, error: str, source: str):
     import re
     for e in rep.known_entries():
         cls = e.get("class", {})
-        if cls.get("kind") != "crash-signature":
+        if not isinstance(cls, dict) or cls.get("kind") != "crash-signature":
             continue
         if cls.get("stage") and cls["stage"] != stage:
             continue
